@@ -468,7 +468,7 @@ def build(md, cfg=None, setup=True):
         # simultaneous-derivative coloring of the totals (dynamic: computed at the first compute_totals)
         p.driver = om.ScipyOptimizeDriver(optimizer='SLSQP')
         p.driver.declare_coloring(show_summary=False, min_improve_pct=0., direct=(cfg['coloring'] != 'subst'),
-                                  num_full_jacs=2)
+                                  num_full_jacs=2, randomize_seeds=bool(cfg.get('randomize_seeds')))
     if cfg.get('driver') is not None:
         p.driver = cfg['driver']
     if setup:
